@@ -12,6 +12,7 @@
 #include <sstream>
 #include <string>
 #include <vector>
+#include <unistd.h>
 
 namespace vf {
 
@@ -67,7 +68,12 @@ template<typename F> int main_loop(int argc, char** argv, F run_case)
       if (w.empty()) continue;
       if (!skip_until.empty()) { if (w[0] != skip_until) continue; skip_until.clear(); }
       std::fprintf(stderr, "@case %s\n", w[0].c_str());
+      // watchdog: a case that does not come back (non-termination in the code under test) ends the process
+      // with SIGALRM; the check records the case as CRASH:timeout and continues with the next one
+      static const unsigned limit = std::getenv("VERIF_CASE_TIMEOUT") ? std::atoi(std::getenv("VERIF_CASE_TIMEOUT")) : 120;
+      ::alarm(limit);
       std::string res = run_case(w);
+      ::alarm(0);
       std::printf("%s %s\n", w[0].c_str(), res.c_str());
       std::fflush(stdout);
    }
